@@ -52,6 +52,10 @@ func (t opTable) loxText() string {
 			txt = fmt.Sprint(o.level)
 		}
 		alts = append(alts, fmt.Sprintf("e %s e %s(%s)", o.tok, a, txt))
+		if t.shape == 3 && o.tok == "A" {
+			// a second operator of the same level whose spelling starts with the same token ("is" / "is not")
+			alts = append(alts, fmt.Sprintf("e A C e %s(%s)", a, txt))
+		}
 	}
 	if t.shape == 1 {
 		for i, j := 0, len(alts)-1; i < j; i, j = i+1, j-1 {
@@ -108,7 +112,16 @@ func enumOpTables() []opTable {
 					}
 					ops = append(ops, od)
 				}
-				for shape := 0; shape < 3; shape++ {
+				for shape := 0; shape < 4; shape++ {
+					if shape == 3 {
+						hasB := false
+						for _, o := range ops {
+							hasB = hasB || o.tok == "C"
+						}
+						if hasB {
+							continue // "A C" as an operator needs C not to be one itself
+						}
+					}
 					out = append(out, opTable{ops: ops, shape: shape})
 				}
 			}
@@ -248,8 +261,16 @@ func TestOperatorGrouping(t *testing.T) {
 			term[tm.Name] = tm
 		}
 		ops := map[string]*opDef{}
+		opNames := []string{}
 		for k := range tab.ops {
 			ops[tab.ops[k].tok] = &tab.ops[k]
+			opNames = append(opNames, tab.ops[k].tok)
+		}
+		if tab.shape == 3 {
+			ab := *ops["A"]
+			ab.tok = "A C"
+			ops["A C"] = &ab
+			opNames = append(opNames, "A C")
 		}
 		// every operator sequence of length 1..maxOps between operands; with shape 2
 		// additionally every way of parenthesising one contiguous sub-expression
@@ -258,7 +279,9 @@ func TestOperatorGrouping(t *testing.T) {
 			var w []*lr1.Terminal
 			var text []string
 			for _, ct := range toks {
-				w = append(w, term[ct.text])
+				for _, name := range strings.Fields(ct.text) {
+					w = append(w, term[name])
+				}
 				text = append(text, ct.text)
 			}
 			c := &climber{toks: toks}
@@ -318,11 +341,11 @@ func TestOperatorGrouping(t *testing.T) {
 			if len(seq) == maxOps {
 				return
 			}
-			for k := range tab.ops {
-				run(append(append([]string{}, seq...), tab.ops[k].tok))
+			for _, on := range opNames {
+				run(append(append([]string{}, seq...), on))
 			}
 		}
 		run(nil)
 	})
-	rep.done(t, true, fmt.Sprintf("%d operator tables (1..3 binary operators, every assignment of levels and per-level associativity, three layouts of the rule, level numbers 1..3 scaled by 1, 7 or 10, or written 9, 010, 0011) x every operator sequence of length <= %d (with parentheses around every contiguous operand group for sequences <= 3)", len(tables), maxOps))
+	rep.done(t, true, fmt.Sprintf("%d operator tables (1..3 binary operators, every assignment of levels and per-level associativity, four layouts of the rule (one with a two-token operator sharing its first token with another operator of its level), level numbers 1..3 scaled by 1, 7 or 10, or written 9, 010, 0011) x every operator sequence of length <= %d (with parentheses around every contiguous operand group for sequences <= 3)", len(tables), maxOps))
 }
